@@ -429,15 +429,38 @@ def helper_rules(chk, repo, mod):
     vz = mod.function("vy_zip")
     uses_zip = [n for n in ast.walk(vz) if isinstance(n, ast.Call)
                 and dotted(n.func) == "zip"]
-    fills = [n for n in ast.walk(vz) if isinstance(n, ast.ExceptHandler)
-             and any(isinstance(s, ast.Assign) and isinstance(
-                 s.value, ast.Constant) and s.value.value == 0
-                 for s in n.body)]
+    def binds_zero(handler):
+        """names the handler sets (first is the padded item)"""
+        for s_ in handler.body:
+            if isinstance(s_, ast.Assign):
+                if isinstance(s_.value, ast.Constant) and s_.value.value == 0:
+                    return True
+                if isinstance(s_.value, ast.Tuple) and any(
+                        isinstance(e, ast.Constant) and e.value == 0
+                        and not isinstance(e.value, bool)
+                        for e in s_.value.elts):
+                    return True
+        return False
+
+    handlers = [n for n in ast.walk(vz) if isinstance(n, ast.ExceptHandler)
+                and "StopIteration" in ast.unparse(n.type or ast.Constant(
+                    value=""))]
+    fills = [h for h in handlers if binds_zero(h)]
     longest = [n for n in ast.walk(vz) if isinstance(n, ast.Call)
                and (dotted(n.func) or "").endswith("zip_longest")]
+    # state each handler records (a counter or a flag)
+    state_names = []
+    for h in handlers:
+        for s_ in h.body:
+            for t in ast.walk(s_):
+                if isinstance(t, ast.Name) and isinstance(t.ctx, ast.Store):
+                    state_names.append(t.id)
     both = any(isinstance(n, ast.Compare) and isinstance(
         n.comparators[0], ast.Constant) and n.comparators[0].value == 2
-        for n in ast.walk(vz))
+        for n in ast.walk(vz)) or any(
+        isinstance(n, ast.BoolOp) and isinstance(n.op, ast.And)
+        and len({m.id for m in ast.walk(n) if isinstance(m, ast.Name)
+                 and m.id in state_names}) >= 2 for n in ast.walk(vz))
     ok = not uses_zip and ((len(fills) >= 2 and both) or any(
         any(kw.arg == "fillvalue" and isinstance(kw.value, ast.Constant)
             and kw.value.value == 0 for kw in c.keywords) for c in longest))
